@@ -383,6 +383,23 @@ where
             }
         }
     }
+    fn with_loading<T>(&self, r: PlainRef, f: impl FnOnce() -> Result<T>) -> Result<T> {
+        let entry = (std::thread::current().id(), r);
+        {
+            let mut chain = self.chain.lock().unwrap();
+            if chain.contains(&entry) {
+                bail!("Recursive reference");
+            }
+            chain.push(entry);
+        }
+        let _defer = Defer(|| {
+            let mut chain = self.chain.lock().unwrap();
+            if let Some(i) = chain.iter().rposition(|e| *e == entry) {
+                chain.remove(i);
+            }
+        });
+        f()
+    }
     fn options(&self) -> &ParseOptions {
         &self.storage.options
     }
